@@ -53,6 +53,10 @@ ASSUMPTIONS = [
     'modified_count ignores no-op updates: sequences run on Mongo use datetimes (ms precision), ints < 2^63, equality '
     'filters only on scalar fields, no limit=0 (MongoDB: 0 = no limit), and - while MONGO_NOOP_UPDATES is off, see finding 9 - every update sets a fresh value',
     'an equality criterion whose value is an object cannot be expressed (a dict criterion is the operator syntax)',
+    'arguments are values: the harness keeps ONE filter dict / projection list / sort list object per distinct value and hands '
+    'it again to the following operations with the same value (a filter built once, used for an update and then a remove); '
+    'after every call every argument object (records and record parts too) must print as it did before the call, on all '
+    'drivers and all operations - a driver that changes an argument is a violation by itself',
     'no aliasing: after every call the harness mutates in place everything the driver returned and (Redis, Mongo; JSON once '
     'fixes/C06-json-copy-inputs.diff is applied - JSON_INPUT_MUTATION) everything it was handed; later answers must not change',
     'the reserved key `__t` inside stored objects is generated on purpose (in-band type marker, finding F11)',
@@ -486,6 +490,17 @@ class Gen:
         if autos and rng.random() < 0.3:
             o = rng.choice(autos)
             return {'uid': self.uid, 'op': 'replace', 'coll': o['coll'], 'id': Ref(o['uid']), 'record': copy.deepcopy(o['record'])}
+        filts = [o for o in done if o.get('filt')]
+        if filts and rng.random() < 0.3:
+            # a caller builds a filter once and uses it for several operations in a row
+            o = filts[-1] if rng.random() < 0.6 else rng.choice(filts)
+            f = copy.deepcopy(o['filt'])
+            r = rng.random()
+            if r < 0.35:
+                return {'uid': self.uid, 'op': 'remove', 'coll': o['coll'], 'filt': f}
+            if r < 0.7:
+                return {'uid': self.uid, 'op': 'update', 'coll': o['coll'], 'part': self.part(o['coll'], self.uid), 'filt': f}
+            return {'uid': self.uid, 'op': 'query', 'coll': o['coll'], 'fields': None, 'filt': f, 'sort': [], 'limit': None}
         if not cands:
             self.uid -= 1
             return None
@@ -691,12 +706,35 @@ async def run_seq(kind, seq, workdir, tag):
 
     mutate_inputs = JSON_INPUT_MUTATION or not kind.startswith('json')
 
+    # A driver must not change its arguments.  Filter dicts, projection lists and sort lists are kept by the harness as
+    # ONE object per distinct value and handed again to the following operations that use the same value (a caller that
+    # builds a filter once and uses it for an update and then a remove); every argument object is compared, after the
+    # call, with its printed form taken before the call.
+    shared = {}
+    watched = []
+
+    def arg(role, value, reuse=True):
+        r = repr(value)
+        hit = shared.get(role)
+        if reuse and hit is not None and hit[0] == r:
+            value = hit[1]
+        elif reuse:
+            shared[role] = (r, value)
+        watched.append((role, value, repr(value)))
+        return value
+
     def handed(d):
         """the copy handed to the driver; vandalised once the call has returned"""
         d = copy.deepcopy(d)
         if mutate_inputs:
             pending.append(d)
         return d
+
+    def handed_arg(role, d, extra=None):
+        d = handed(d)
+        if extra:
+            d.update(extra)
+        return arg(role, d, reuse=False)
 
     pending = []
 
@@ -723,9 +761,7 @@ async def run_seq(kind, seq, workdir, tag):
             if k == 'insert':
                 conc['id'] = o['id']
                 conc['record'] = o['record']
-                rec = handed(o['record'])
-                if o['id'] is not None:
-                    rec['id'] = o['id']
+                rec = handed_arg('record', o['record'], None if o['id'] is None else {'id': o['id']})
                 try:
                     new_id = await driver.insert(coll, rec)
                     out = ('id', new_id)
@@ -741,21 +777,21 @@ async def run_seq(kind, seq, workdir, tag):
             elif k == 'update':
                 conc['part'] = o['part']
                 conc['filt'] = cfilt_concrete(o['filt'])
-                out = ('count', int(await driver.update(coll, handed(o['part']), rfilt(o['filt']))))
+                out = ('count', int(await driver.update(coll, handed_arg('record_part', o['part']), arg('filt', rfilt(o['filt'])))))
             elif k == 'replace':
                 conc['id'] = res(o['id'])
                 conc['record'] = o['record']
-                out = ('bool', bool(await driver.replace(coll, conc['id'], handed(o['record']))))
+                out = ('bool', bool(await driver.replace(coll, conc['id'], handed_arg('record', o['record']))))
             elif k == 'remove':
                 conc['filt'] = cfilt_concrete(o['filt'])
-                out = ('count', int(await driver.remove(coll, rfilt(o['filt']))))
+                out = ('count', int(await driver.remove(coll, arg('filt', rfilt(o['filt'])))))
             else:
                 conc['filt'] = cfilt_concrete(o['filt'])
                 conc['fields'], conc['sort'], conc['limit'] = o['fields'], o['sort'], o['limit']
                 if kind == 'redis':
                     scan = [str(x) for x in driver._client.sscan_iter(driver._make_set_key(coll))]
-                rs = await driver.query(coll, None if o['fields'] is None else list(o['fields']), rfilt(o['filt']),
-                                        [(f, r) for f, r in o['sort']], o['limit'])
+                rs = await driver.query(coll, None if o['fields'] is None else arg('fields', list(o['fields'])),
+                                        arg('filt', rfilt(o['filt'])), arg('sort', [(f, r) for f, r in o['sort']]), o['limit'])
                 rs = list(rs)
                 out = ('recs', canon_records(copy.deepcopy(rs)))
                 vandalise(rs)
@@ -763,10 +799,14 @@ async def run_seq(kind, seq, workdir, tag):
         except Exception as e:
             out = ('err',)
             note = '%s: %s' % (type(e).__name__, str(e)[:200])
+        changed = [(role, before, repr(obj)) for role, obj, before in watched if repr(obj) != before]
+        del watched[:]
         for d in pending:
             vandalise(d)
         del pending[:]
         steps.append({'op': conc, 'out': out, 'scan': scan, 'note': note})
+        if changed:
+            steps[-1]['arg_changed'] = changed
         if out[0] == 'err':
             break
     try:
@@ -985,6 +1025,8 @@ def describe_step(s):
         d['raised'] = s['note']
     if s['scan'] is not None:
         d['scan_order'] = s['scan']
+    if 'arg_changed' in s:
+        d['arguments_changed'] = [{'argument': r, 'before': b, 'after': a} for r, b, a in s['arg_changed']]
     return d
 
 
@@ -1082,6 +1124,43 @@ def load_corpus():
     return out
 
 
+def report_changed_arguments(ctx, res, meta, cases):
+    """a driver changed an object it was given as an argument: a violation by itself (decided on the Python side: the
+    reference store's operations are functions of values).  One report per (driver, operation, argument)."""
+    reported = ctx.__dict__.setdefault('c06_argmut', set())
+    for (name, kind, seq), (_, steps) in zip(meta, cases):
+        for st in steps:
+            if 'arg_changed' not in st:
+                continue
+            roles = sorted(r for r, _, _ in st['arg_changed'])
+            sig = (kind.split('-')[0], st['op']['op'], tuple(roles))
+            if sig in reported:
+                break
+            reported.add(sig)
+            uid = st['op']['uid']
+            cur = seq[:[i for i, o in enumerate(seq) if o['uid'] == uid][0] + 1]
+
+            def still(c):
+                ss = asyncio.run(run_seq(kind, c, ctx.workdir, 'am'))
+                return bool(ss) and ss[-1]['op']['uid'] == uid and sorted(r for r, _, _ in ss[-1].get('arg_changed', [])) == roles
+            for i in reversed(range(len(cur) - 1)):
+                cand = cur[:i] + cur[i + 1:]
+                if still(cand):
+                    cur = cand
+            final = asyncio.run(run_seq(kind, cur, ctx.workdir, 'am'))
+            last = final[-1] if final and 'arg_changed' in final[-1] else st
+            res['violations'].append({
+                'key': {'driver': kind.split('-')[0], 'op': st['op']['op'], 'argument_changed': roles},
+                'what': '%s driver: %s() changed the %s object it was given (%s)%s' % (
+                    kind, st['op']['op'], ' / '.join(roles),
+                    '; '.join('%s: %s -> %s' % (r, b[:120], a[:120]) for r, b, a in last['arg_changed']),
+                    '' if name is None else ' [corpus %s]' % name),
+                'case': {'driver': kind, 'sequence': seq_to_json(cur)},
+                'observed': [describe_step(x) for x in final] if final else None,
+            })
+            break
+
+
 def run_batch(ctx, res, seqs, kinds, label, shrink_budget=9):
     """seqs: list of (name, drivers or None, sequence)"""
     cases, meta = [], []
@@ -1115,6 +1194,7 @@ def run_batch(ctx, res, seqs, kinds, label, shrink_budget=9):
     if len(res['samples']) < 6:
         for (name, kind, seq), (_, steps) in list(zip(meta, cases))[:3]:
             res['samples'].append({'driver': kind, 'steps': [describe_step(s) for s in steps[:6]], 'length': len(steps)})
+    report_changed_arguments(ctx, res, meta, cases)
     if not ctx.model_ok:
         res['tie_failures'].append('model not built; cases not evaluated')
         return
